@@ -76,6 +76,7 @@ type WorkerSpec struct {
 	CallDepth  int      `json:"call_depth"`
 	TimeoutMS  int      `json:"timeout_ms"`
 	SMTLog     string   `json:"smt_log"`
+	Hang       bool     `json:"hang_is_violation"`
 }
 
 var pkgClause = regexp.MustCompile(`(?m)^package\s+(\w+)`)
@@ -202,7 +203,7 @@ func workerMain() {
 		res := m.RunCase(j.Fn, s, interp.Options{
 			AllowInit: append(append([]string{}, stdInit...), spec.Init...), Params: j.Params, KnownRegions: known,
 			StepLimit: spec.StepLimit, MaxDecisions: spec.Decisions, MaxCallDepth: spec.CallDepth,
-			SolverTimeMS: spec.TimeoutMS, ModulePrefix: modulePrefix,
+			SolverTimeMS: spec.TimeoutMS, ModulePrefix: modulePrefix, HangIsViolation: spec.Hang,
 		})
 		emit("RESULT", map[string]any{"unit": j.Unit, "result": res})
 	}
